@@ -936,11 +936,16 @@ def entry_points(dtype=np.float64, seed=0):
             return f"(KNnTuckerClassFit {N}%nat {sweeps}%nat {C.boolc(normalize)} {C.nat_list(range(N))})"
         return (nck_name, [0, 1])
     simple("Tucker_NN_receiver_fit_transform", lambda est, X: est.fit_transform(X), lambda d: (Tucker_NN([2, 2, 2], n_iter_max=2, init=(d.core, d.tf)), d.X), inplace=[0], skel=nck(False))
-    # round 7: exact=True of the HALS family through the estimator classes (heavy: one argument kind in the quick tier); also the only table
-    # configurations giving CP_NN_HALS(nn_modes=) / Tucker_NN_HALS(core_sparsity_coefficient=) a non-default value whatever the fuzz stream draws
-    simple("CP_NN_HALS_class_exact_nnmodes", lambda X, i, fm: CP_NN_HALS(R, n_iter_max=1, init=i, exact=True, nn_modes=[2], fixed_modes=fm).fit_transform(X), lambda d: (d.X, (d.w1, d.fs), [0, 1]))
-    simple("Tucker_NN_HALS_class_exact_core_sparsity", lambda X, i, fm: Tucker_NN_HALS([2, 2, 2], n_iter_max=1, init=i, exact=True, fixed_modes=fm, core_sparsity_coefficient=0.1).fit_transform(X),
-           lambda d: (d.X, (d.core, d.tf), [0, 1]))
+    # round 7: exact=True of the HALS family (hals_nnls then iterates up to 50000 times until the update vanishes).  RANK ONE: the row update is then the
+    # closed-form minimiser, the second inner iteration changes nothing and the loop ends - exact=True costs milliseconds, so every argument kind and the
+    # interruptions run.  Also the only table configurations giving CP_NN_HALS(nn_modes=) / Tucker_NN_HALS(core_sparsity_coefficient=) a non-default value.
+    r1 = lambda d: [(d.rs.rand(s_, 1) + 0.1).astype(dtype) for s_ in d.X.shape]
+    simple("CP_NN_HALS_class_exact_rank1", lambda X, i, fm: CP_NN_HALS(1, n_iter_max=2, init=i, exact=True, nn_modes=[1, 2], fixed_modes=fm).fit_transform(X), lambda d: (d.X, (np.ones(1, dtype=dtype), r1(d)), [0]))
+    simple("nn_parafac_hals_exact_rank1", lambda X, i, sc, fm: non_negative_parafac_hals(X, 1, n_iter_max=2, init=i, exact=True, sparsity_coefficients=sc, fixed_modes=fm), lambda d: (d.X, (np.ones(1, dtype=dtype), r1(d)), [0.1, None, 0.1], [0]))
+    simple("Tucker_NN_HALS_class_exact_rank1", lambda X, i, fm: Tucker_NN_HALS([1, 1, 1], n_iter_max=2, init=i, exact=True, fixed_modes=fm, core_sparsity_coefficient=0.1).fit_transform(X),
+           lambda d: (d.X, ((d.rs.rand(1, 1, 1) + 0.1).astype(dtype), r1(d)), [0]))
+    simple("nn_tucker_hals_exact_rank1_active_set", lambda X, i: non_negative_tucker_hals(X, [1, 1, 1], n_iter_max=2, init=i, exact=True, algorithm="active_set"), lambda d: (d.X, ((d.rs.rand(1, 1, 1) + 0.1).astype(dtype), r1(d))))
+    simple("hals_nnls_warm_exact_true_rank1", lambda a, b, V: hals_nnls(a, b, V, exact=True), lambda d: (d.UtM[:1], d.UtU[:1, :1], (d.rs.rand(1, 3) * 5 + 1).astype(dtype)), inplace=[2], skel=HN)
     simple("Tucker_NN_receiver_fit_transform_normalize_obj", lambda est, X: est.fit_transform(X), lambda d: (Tucker_NN([2, 2, 2], n_iter_max=2, init=TuckerTensor((d.core, d.tf)), normalize_factors=True, tol=0), d.X), inplace=[0], skel=nck(True))
     simple("Tucker_NN_HALS_receiver_fit_transform", lambda est, X: est.fit_transform(X), lambda d: (Tucker_NN_HALS([2, 2, 2], n_iter_max=2, init=(d.core, d.tf), sparsity_coefficients=[0.1, None, 0.1], fixed_modes=[2]), d.X), inplace=[0], skel=EK)
     simple("CPPower_receiver_fit", lambda est, X: est.fit(X), lambda d: (CPPower(R, n_repeat=2, n_iteration=2), d.X), inplace=[0], skel=EK)
@@ -2339,7 +2344,7 @@ def static_cases(repo, cap=STATIC_CAP):
 # ============================================================================ running one configuration
 QUICK_VARIANTS = ["fresh", "transposed", "sliced", "readonly"]
 QUICK_COLUMN = ("prox_", "nn_tucker_init", "hals_nnls_warm", "active_set_warm", "fista_warm")     # configurations that also get the "column" kind in the quick tier
-HEAVY = {"nn_parafac_hals_init_exact_nnmodes", "CP_NN_HALS_class_exact_nnmodes", "Tucker_NN_HALS_class_exact_core_sparsity"}      # > 1 s CPU per call (exact HALS: 50000 inner iterations): one kind in the quick tier
+HEAVY = {"nn_parafac_hals_init_exact_nnmodes"}      # > 1 s CPU per call (exact HALS: 50000 inner iterations): one kind in the quick tier
 ALL_VARIANTS = ["fresh", "transposed", "sliced", "strided", "readonly", "column"]
 # "readonly": protected arrays have writeable=False and protected lists record mutator calls, so that a write of IDENTICAL
 # values (invisible to the byte snapshot) surfaces as an exception / a logged call: a write attempt through a protected
